@@ -50,4 +50,13 @@ INFO = {
         "trusted_base": [LEAN_TB, CORR_TB, XARGS_TB],
         "assumptions": ["replacement strings and lines are valid UTF-8 (the code converts lossily)"],
     },
+    "C14": {
+        "level_text": "Lean 4 theorems about a hand-written executable model of ComparableValue::{matches,imatches}, convert_arg_to_comparable_value(_and_suffix), Unit::from_str and byte_size_to_unit_size: exactly one of N/+N/-N holds for every value (unsigned and signed readings, all integers), each form means equal/greater/less, +N/-N are monotone in N, the operand parser accepts exactly [+-]?digits (value < 2^64) and -size exactly that followed by one unit suffix, the unit table, unit size = ceil(bytes/2^k) with no intermediate value above the input, and the two corollaries of the property text (-size -1k iff empty, -size 1M iff 1..2^20). Tied to /repo on every run by differential execution of the real private functions (hook, exhaustive over small alphabets and boundary values) and of in-process find_main on sparse files and on files with chosen link counts and owners.",
+        "level_note": "Trusted: Lean kernel, harness/codecs; the regex crate (used for operand syntax) and std's u64 parser are exercised, not modelled.",
+        "technique": "Lean 4 proof (omega-level arithmetic, list induction for the parser characterisation) + differential correspondence against the compiled model",
+        "rule": "operand strings: every string up to length 4 (quick) / 5 (thorough) over {+,-,0,1,9,space,a,k,U+0663,newline} for plain operands and over {+,-,0,7,c,w,b,k,M,G,x,newline,U+0663} for -size operands, values around 2^63/2^64 with signs and unit suffixes, junk strings, random digit strings with injected junk; the three forms on (N, value) pairs over boundary values and random 64-bit values, unsigned and signed; unit conversion for every unit at k*unit-1, k*unit, k*unit+1 up to 2^64; end to end: sparse files of sizes around (N-1,N,N+1)*unit for every unit up to 5 GiB through in-process find_main with N, +N, -N, and -links/-inum/-uid/-gid on files with 1-6 links and six owner/group pairs. non-trivial = operand containing a digit and at least two characters, or any evaluation case; distinct = distinct request lines",
+        "trusted_base": [LEAN_TB, CORR_TB, "regex crate and str::parse::<u64> (exercised, not modelled)"],
+        "assumptions": ["file sizes, link counts, inode numbers and ids sent to the model are the ones an independent lstat observed"],
+        "exhaustive": False,
+    },
 }
